@@ -230,7 +230,9 @@ def collection_unit(copy_fields, duplicate=False):
 
             it.stub_names["number_array"] = number_array
             it.stub_modules["numpy"].attrs["may_share_memory"] = lambda a, b: a.buf is b.buf
-            c = it.instantiate(ccls, [list(given)], {"copy_fields": copy_fields})
+            callers_list = list(given)
+            c = it.instantiate(ccls, [callers_list], {"copy_fields": copy_fields})
+            c.attrs["__callers_list__"] = callers_list
             return c, given, snapshot, buffers
 
         for p, res in enumerate(explore_paths(U, body)):
@@ -246,6 +248,8 @@ def collection_unit(copy_fields, duplicate=False):
             rows = sum(1 if g.attrs["kind"] == "scalar" else 2 for g in given)
             ok = isinstance(full, NDArr) and isinstance(valid, NDArr) and len(members) == len(given) and valid.buf is full.buf and concrete_eq(full.shape[0], rows)
             U.prove(f"{nm}.collection_owns_one_array_with_one_row_per_component_and_data_is_a_view_of_it", P, z3.BoolVal(bool(ok)))
+            # the list of members is the collection's own: later changes of the caller's list cannot add "members" without rows
+            U.prove(f"{nm}.member_list_is_not_the_caller's_list_object", P, z3.BoolVal(members is not c.attrs.get("__callers_list__")))
             if not ok:
                 continue
             j = z3.Int("j")
